@@ -35,7 +35,11 @@ EXC_TYPES = {
 }
 
 
-def make_exc(name, tag="planned"):
+def make_exc(name, tag="planned", side="a"):
+    if name == "Stop":
+        # the protocol's own exception raised by a USER CALLABLE: StopAsyncIteration for the library,
+        # StopIteration for the synchronous reference
+        return (StopAsyncIteration if side == "a" else StopIteration)(tag)
     exc = EXC_TYPES[name](tag)
     return exc
 
